@@ -31,18 +31,17 @@ Definition w_bias (children : list nat) : obj :=
 
 Ltac wit := repeat (split; [vm_compute; first [reflexivity | auto 12] |]); vm_compute; first [reflexivity | auto 12].
 
-(* F3 (repaired in the code, fix "a feature required by exactly one other enabled feature could be disabled"):
-   output_total_force (20) requires total_force (7); one dependent gives ref_count 1 and disable() now refuses
-   ref_count > 0 (it used to refuse only ref_count > 1).  Regression example on the real tables. *)
+(* F3: output_total_force (20) requires total_force (7); one dependent gives ref_count 1 and
+   disable() refuses only ref_count > 1 *)
 Definition w3_s0 : state := [w_cv [34; 35] []].
 
-Lemma w3_regression : exists s,
+Lemma w3_witness : exists s s',
   enable gen_tables 20 0 20 false true false w3_s0 = Some (true, s) /\
   In 7 (f_self (feat gen_tables (cls_of s 0) 20)) /\ is_enabled s 0 20 = true /\ is_enabled s 0 7 = true /\
   fs_rc (get_fs s 0 7) = 1%Z /\
-  disable gen_tables 20 0 7 s = Some (false, s) /\
-  (exists s', disable gen_tables 20 0 20 s = Some (true, s') /\ is_enabled s' 0 20 = false /\ is_enabled s' 0 7 = false).
-Proof. eexists. repeat (split; [vm_compute; first [reflexivity | auto 12] |]). eexists. wit. Qed.
+  disable gen_tables 20 0 7 s = Some (true, s') /\
+  is_enabled s' 0 20 = true /\ is_enabled s' 0 7 = false.
+Proof. do 2 eexists. wit. Qed.
 
 (* F4: collect_gradient (4) requires gradient (3), scalar (34), collect_atom_ids (5); on a
    non-scalar variable the call fails at 34 after 3 has been enabled with one reference *)
